@@ -200,11 +200,7 @@ def to_model_events(sim, scenario, cfg):
 
 
 def _jcol(cfg, w, m):
-    jp = m.task[0].task
-    for i, c in enumerate(cfg["cols"][w]):
-        if c is not None and "join" in c and c["join"] == jp.id:
-            return i
-    return -1
+    return m.task[0].task.id
 
 
 def budget(scenario):
